@@ -168,7 +168,9 @@ Inductive sstate := Awake | Sleeping | Polling.
 Definition sstate_eqb (a b : sstate) : bool :=
   match a, b with Awake, Awake | Sleeping, Sleeping | Polling, Polling => true | _, _ => false end.
 
-Record astate := mkastate { a_sleep : sstate; a_cache : list entry }.
+(** [a_pending]: the flooder's pending wake command (storePendingWake) and the
+    instant it was stored; it is re-sent to peers that connect later. *)
+Record astate := mkastate { a_sleep : sstate; a_cache : list entry; a_pending : option (cmd * Z) }.
 
 Inductive frame :=
 | FSleep (c : cmd)
@@ -201,10 +203,11 @@ Section WithHandle.
     : astate * list effect * Z :=
     let '(ca', r) := hdl cfg now peers from c (a_cache st) in
     match r with
-    | None => (mkastate (a_sleep st) ca', [], now)
+    | None => (mkastate (a_sleep st) ca' (a_pending st), [], now)
     | Some tg =>
         let '(s', ef) := mgr_apply k (a_sleep st) in
-        (mkastate s' ca', map (fun p => EForward k p c) tg ++ ef, now + settle_delay k)
+        (mkastate s' ca' (match k with KWake => Some (c, now) | KSleep => a_pending st end),
+         map (fun p => EForward k p c) tg ++ ef, now + settle_delay k)
     end.
 
   (** repaired handleQueuedState: each carried command takes the flooded path *)
@@ -229,10 +232,22 @@ Section WithHandle.
     | FQueued s w =>
         let '(s1, ef1) := match s with Some _ => mgr_apply KSleep (a_sleep st) | None => (a_sleep st, []) end in
         let '(s2, ef2) := match w with Some _ => mgr_apply KWake s1 | None => (s1, []) end in
-        (mkastate s2 (a_cache st), ef1 ++ ef2, now)
+        (mkastate s2 (a_cache st) (a_pending st), ef1 ++ ef2, now)
     | _ => on_frame_with cfg now peers from f st
     end.
 End WithHandle.
+
+(** Flooder.OnPeerConnected (called from the agent's peer-connected
+    callback): a stored wake command younger than SeenCacheTTL is sent to the
+    new peer unless that peer is its origin. *)
+Definition on_peer_up (cfg : fcfg) (now : Z) (p : N) (st : astate) : astate * list effect :=
+  match a_pending st with
+  | None => (st, [])
+  | Some (c, at_) =>
+      if f_ttl cfg <? now - at_ then (mkastate (a_sleep st) (a_cache st) None, [])
+      else if (p =? c_origin c)%N then (st, [])
+      else (st, [EForward KWake p c])
+  end.
 
 Definition on_cmd := on_cmd_with handle.
 Definition on_frame := on_frame_with handle.
@@ -284,7 +299,10 @@ Record obs := mkobs {
   ob_fwd_wake : list N;
   ob_keys : list (N * N) }.
 
-Record step := mkstep { s_now : Z; s_from : N; s_frame : frame; s_obs : obs }.
+(** what the harness hands in: a frame from a peer, or a peer that connects *)
+Inductive event := EvFrame (f : frame) | EvPeerUp.
+
+Record step := mkstep { s_now : Z; s_from : N; s_event : event; s_obs : obs }.
 
 Record acase := mkacase { k_signing : bool; k_sleeping : bool; k_steps : list step }.
 
@@ -302,7 +320,11 @@ Definition default_cfg (signing : bool) : fcfg :=
 Definition model_peers : list N := [1; 2; 3]%N.
 
 Definition step_ok (cfg : fcfg) (st : astate) (s : step) : astate * bool :=
-  let '(st', ef, _) := on_frame cfg (s_now s) model_peers (s_from s) (s_frame s) st in
+  let '(st', ef) :=
+    match s_event s with
+    | EvFrame f => let '(st', ef, _) := on_frame cfg (s_now s) model_peers (s_from s) f st in (st', ef)
+    | EvPeerUp => on_peer_up cfg (s_now s) (s_from s) st
+    end in
   let o := s_obs s in
   (st',
    N.eqb (sstate_code (a_sleep st')) (ob_state o) &&
@@ -317,7 +339,7 @@ Fixpoint steps_ok (cfg : fcfg) (st : astate) (ss : list step) : bool :=
   end.
 
 Definition acase_ok (k : acase) : bool :=
-  steps_ok (default_cfg (k_signing k)) (mkastate (if k_sleeping k then Sleeping else Awake) []) (k_steps k).
+  steps_ok (default_cfg (k_signing k)) (mkastate (if k_sleeping k then Sleeping else Awake) [] None) (k_steps k).
 
 Fixpoint amismatches_from (i : N) (cs : list acase) : list N :=
   match cs with
